@@ -105,15 +105,15 @@ def behOutcome (b : Beh) (v acc : Nat) : Outcome :=
   | .panic => .errPanic
   | .overflow => .errOverflow
 
-/-- stack slots the invocation leaves above its base (see `resumeFrame`: the top of an
-    abandoned frame is carried down as a "frame result") -/
+/-- stack slots the invocation leaves above its base.  Since the `fix:` commit in vm/vm.go
+    (`callFunction` drops the leftovers of a call that ends in an error) a cancelled or failing
+    call leaves nothing behind; a cut-short "success" (`okHook`) still carries the abandoned
+    frame's top down as a "frame result" (`resumeFrame`). -/
 def spDelta (kind : Kind) (pend : Nat) (o : Outcome) : Int :=
   match kind, o with
-  | .call, .errCanceled => 1
   | .call, _ => 0
   | _, .ok _ => 1
   | _, .okHook => pend + 1
-  | _, .errCanceled => pend + 1
   | _, _ => pend
 
 /-- a `Call` on a VM that has no active code first loads the definitions with
